@@ -173,4 +173,121 @@ def AnyWriter.fixed : AnyWriter (Bytes × Nat) where
     simp only [fixedWriteAll, Prod.mk.injEq] at h
     exact ⟨min b.length room, Nat.min_le_left _ _, by rw [← h.1]⟩
 
+/-- one scripted `write`: what was accepted is a prefix of the buffer, appended to the sink -/
+theorem scriptWrite_delivers (sc : Script) (buf : Bytes) (w w' : WState) (n : Nat) (hb : buf ≠ [])
+    (h : scriptWrite sc buf w = .ok (n, w')) :
+    n ≤ buf.length ∧ w'.delivered = w.delivered ++ buf.take n := by
+  have hpos : 0 < buf.length := by cases buf with
+    | nil => exact absurd rfl hb
+    | cons a as => simp
+  have hx := (xferLen_bounds sc w.intr w.delivered.length buf.length hpos).2
+  unfold scriptWrite at h
+  simp only at h
+  split at h
+  · cases h
+  · split at h
+    · rename_i so st hstop
+      split at h
+      · cases st with
+        | zero => simp only [Out.ok.injEq, Prod.mk.injEq] at h; rw [← h.1, ← h.2]; simp
+        | fail k id => cases h
+      · simp only [Out.ok.injEq, Prod.mk.injEq] at h; rw [← h.1, ← h.2]; exact ⟨hx, rfl⟩
+    · simp only [Out.ok.injEq, Prod.mk.injEq] at h; rw [← h.1, ← h.2]; exact ⟨hx, rfl⟩
+
+/-- the `write_all` loop over **any** script (any chunking, interrupts, `Ok(0)` or a hard failure
+anywhere): what reaches the sink is a prefix of the buffer, all of it when the loop returns `Ok` -/
+theorem writeAllLoop_prefix (sc : Script) : ∀ (fuel : Nat) (buf : Bytes) (w : WState),
+    ∃ k, k ≤ buf.length ∧ (writeAllLoop sc fuel buf w).1.delivered = w.delivered ++ buf.take k ∧
+      ((writeAllLoop sc fuel buf w).2 = .ok () → k = buf.length) := by
+  intro fuel
+  induction fuel with
+  | zero => intro buf w; exact ⟨0, Nat.zero_le _, by simp [writeAllLoop], fun h => by simp [writeAllLoop] at h⟩
+  | succ fuel ih =>
+    intro buf w
+    by_cases hb : buf = []
+    · subst hb; exact ⟨0, Nat.le_refl _, by simp [writeAllLoop], fun _ => rfl⟩
+    · have hne : buf.isEmpty = false := by cases buf with
+        | nil => exact absurd rfl hb
+        | cons a as => rfl
+      simp only [writeAllLoop, hne, Bool.false_eq_true, if_false]
+      cases hw : scriptWrite sc buf w with
+      | ok r =>
+        obtain ⟨n, w'⟩ := r
+        obtain ⟨hn, hd⟩ := scriptWrite_delivers sc buf w w' n hb hw
+        simp only
+        by_cases hz : n = 0
+        · subst hz
+          simp only [beq_self_eq_true, if_true]
+          exact ⟨0, Nat.zero_le _, by rw [hd], fun h => by cases h⟩
+        · have : (n == 0) = false := by simpa using hz
+          simp only [this, Bool.false_eq_true, if_false]
+          obtain ⟨k, hk, hdk, hok⟩ := ih (buf.drop n) w'
+          have hl : (buf.drop n).length = buf.length - n := List.length_drop
+          refine ⟨n + k, by omega, ?_, fun h => by have := hok h; omega⟩
+          rw [hdk, hd, List.append_assoc]
+          congr 1
+          rw [List.take_add]
+      | err e =>
+        simp only
+        by_cases hi : e.kind = .interrupted
+        · simp only [hi, if_true]
+          obtain ⟨k, hk, hdk, hok⟩ := ih buf (afterIntrW w)
+          exact ⟨k, hk, by rw [hdk]; rfl, hok⟩
+        · simp only [hi, if_false]
+          exact ⟨0, Nat.zero_le _, by simp, fun h => by cases h⟩
+      | panic p => exact ⟨0, Nat.zero_le _, by simp, fun h => by cases h⟩
+
+/-- **every scripted writer honours the `io::Write` contract**, so it is an instance of the
+any-writer theorem: for every script — chunk pattern, interrupt placement, `Ok(0)` or hard failure at
+any offset — `C12_any_writer` applies without further hypotheses -/
+def AnyWriter.script (sc : Script) : AnyWriter WState where
+  writeAll b w := Borsh.writeAll sc b w
+  delivered w := w.delivered
+  ok_all := by
+    intro b w w' h
+    obtain ⟨k, _, hd, hok⟩ := writeAllLoop_prefix sc (b.length + totalPending w.intr + 1) b w
+    unfold Borsh.writeAll at h
+    rw [h] at hd hok
+    have := hok rfl
+    subst this
+    simpa using hd
+  fail_prefix := by
+    intro b w w' r h _
+    obtain ⟨k, hk, hd, _⟩ := writeAllLoop_prefix sc (b.length + totalPending w.intr + 1) b w
+    unfold Borsh.writeAll at h
+    rw [h] at hd
+    exact ⟨k, hk, hd⟩
+
+theorem runTrace_eq_any (sc : Script) : ∀ (cs : List Bytes) (st : Out Unit) (w : WState),
+    runTrace sc cs st w = runTraceAny (AnyWriter.script sc) cs st w := by
+  intro cs
+  induction cs with
+  | nil => intro st w; rfl
+  | cons c cs ih =>
+    intro st w
+    have hwa : (AnyWriter.script sc).writeAll c w = Borsh.writeAll sc c w := rfl
+    simp only [runTrace, runTraceAny, hwa]
+    cases hw : Borsh.writeAll sc c w with
+    | mk w' r =>
+      cases r with
+      | ok u => cases u; simp only; exact ih st w'
+      | err e => rfl
+      | panic p => rfl
+
+/-- `to_writer` into a scripted writer *is* the any-writer run at that instance -/
+theorem toWriterScript_eq_any (sc : Script) (intr : List (Nat × Nat)) (t : Ty) (v : Val) :
+    toWriterScript sc intr t v = toWriterAny (AnyWriter.script sc) t v ⟨[], intr⟩ := by
+  simp only [toWriterScript, toWriterAny, runTrace_eq_any]
+
+/-- **C12 for every scripted writer, unconditionally**: whatever the script does, the bytes that
+reached the sink are a prefix of the encoding, and `Ok` means the whole encoding arrived -/
+theorem C12_script_prefix (sc : Script) (intr : List (Nat × Nat)) (t : Ty) (v : Val) :
+    (∃ k, k ≤ (ser t v).bytes.length ∧
+      (toWriterScript sc intr t v).1.delivered = (ser t v).bytes.take k) ∧
+    ((toWriterScript sc intr t v).2 = .ok () →
+      (toWriterScript sc intr t v).1.delivered = (ser t v).bytes ∧ toVec t v = .ok (ser t v).bytes) := by
+  rw [toWriterScript_eq_any]
+  have := C12_any_writer (AnyWriter.script sc) t v ⟨[], intr⟩
+  simpa [AnyWriter.script] using this
+
 end Borsh
